@@ -32,7 +32,13 @@ RULE = ("correspondence: sessions of 1-5 run/reset calls over 2-4 user programs 
         "decomposable gate is involved (search); 60% of the untouched-program cases contain 2-3 adjacent commands of one "
         "mergeable family (gates incl. daggered, Loss/ThermalLoss/Passive channels, preparations, Interferometers, one op "
         "object used twice) and are put through Program.optimize, compile(optimize=True) and run(compile_options="
-        "{'optimize': True}); a sweep covers every family x backend x optimising entry point on every run")
+        "{'optimize': True}); a sweep covers every family x backend x optimising entry point on every run; "
+        "45% of the gaussian/fock segment cases, 40% of the reset histories and 30% of the untouched-program cases delete and create modes "
+        "(Del / New, follow-up segments built with sf.Program(parent)); every earlier segment is fingerprinted (register, num_subsystems, "
+        "RegRef activity, unused indices, circuit, op parameters) before/after building and running the later ones; a deterministic sweep feeds "
+        "every mode of 1-3 mode registers forward (re-measured modes, empty middle segment); segments share a free parameter bound through args; "
+        "sampled (seeded) instead of post-selected outcomes; bound free parameters are compared with literal values and re-bound; compile is "
+        "also given run / backend options; TDM programs go through user-side unroll / space_unroll / roll histories with varying shots")
 TRUSTED_BASE = [
     "Coq 8.16.1 kernel; vm_compute for evaluating the model on cases and for the three _refuted witnesses",
     "hand-written model coq/C09/Model.v of BaseEngine._run / reset / LocalEngine._run_program / Operation.apply / "
@@ -51,7 +57,9 @@ ASSUMPTIONS = [
     "the Coq model resolves q[k].par in the RegRefs of the program being run (true of the source since cf8f0c2 made measured parameters of different programs different symbols; the search checks it with the owner test)",
     "optimize=True together with measured parameters is left to C03 (the optimiser's known defect there moves such gates before the measurement)",
     "state comparisons use atol 1e-7, or 2e-5 when the case contains a (post-selected) measurement, whose simulation carries run-to-run noise of ~5e-7; states with NaN/inf count as an error outcome",
-    "shots = 1; no New/Del inside segments (register bookkeeping is C08), no free parameters in the Coq model (they are covered by the search)",
+    "shots = 1; no New/Del inside segments and no free parameters in the Coq model: register-changing child segments (sf.Program(parent) with Del/New), free-parameter binding and TDM programs are covered by the failing-input search only",
+    "Engine.run(args=...) requires every program of the call to own every named parameter (bind_params raises otherwise): treated as the API's contract, not as a compositionality failure",
+    "a TDM program that arrives unrolled is run as it is (the engine does not re-unroll it for another number of shots): TDMProgram.unroll/roll semantics are C13's subject",
     "storing measured values in RegRef.val, binding FreeParameter values and setting Program.locked are documented effects of run/compile and are not counted as 'altering the user's program'",
 ]
 MANIFEST_TEXT = ("all theorems full, about the model of the current code: C09_compositional_calls, C09_compositional_concat (every "
@@ -1507,7 +1515,7 @@ def search(ctx):
     # corpus first
     for f in sorted(glob.glob(os.path.join(coq.VERIF, "corpus", "C09-*.json"))):
         d = json.load(open(f)).get("data", {})
-        if d.get("check") in ("compose", "reset", "untouched", "tdm"):
+        if d.get("check") in ("compose", "reset", "untouched", "tdm", "child-alone"):
             for sig, text in search_eval(d):
                 ctx.counterexample(sig, text, d)
     weights = [("gaussian", 0.65), ("fock", 0.2), ("bosonic", 0.15)]
@@ -1537,6 +1545,7 @@ def search(ctx):
             ctx.counterexample(v[0], v[1], d)
     merge_sweep(ctx)
     ff_sweep(ctx)
+    child_alone_sweep(ctx)
     for _ in range(ctx.budget(30, 1200)):
         spec = gen_reset(rng, "bosonic" if rng.random() < 0.2 else pick())
         try:
@@ -1623,7 +1632,43 @@ def ff_sweep(ctx):
                     ctx.counterexample(v[0], v[1], {"check": "compose", "spec": spec})
 
 
+def child_alone_verdict(spec):
+    """A follow-up program built with sf.Program(parent), run on its own on a new engine, behaves like an
+    independent program on the parent's final register (parents that only create modes, so that such an
+    independent program exists)."""
+    n, k, backend = spec["n"], spec["new"], spec["backend"]
+    parent = s_build(sf.Program(n), [["New", [1], [], False, {}] for _ in range(k)] + spec["parent"], {}, 0)
+    child = s_build(sf.Program(parent), spec["child"], {}, 1)
+    indep = s_build(sf.Program(n + k), spec["child"], {}, 1)
+    a = attempt(lambda: new_engine(backend).run(child), backend)
+    b = attempt(lambda: new_engine(backend).run(indep), backend)
+    if not same_sig(a, b, spec_tol(spec)):
+        return ("segments:child-program-alone-differs-from-independent-program",
+                "sf.Program(parent) with the parent's %d+%d modes run alone -> %s, sf.Program(%d) with the same circuit -> %s (or a different state)"
+                % (n, k, brief(a), n + k, brief(b)))
+    return None
+
+
+def child_alone_sweep(ctx):
+    rng = ctx.rng
+    for backend in ("gaussian", "fock"):
+        for n, k in ((1, 1), (2, 1), (1, 2)):
+            cm = [c for c in s_random_cmds(rng, n + k, 4, backend, 1)]
+            cm.append(["Dgate", [0.3, 0.2], [n + k - 1], False, {}])
+            spec = {"n": n, "new": k, "backend": backend, "parent": s_random_cmds(rng, n, 2, backend, 0), "child": cm}
+            try:
+                v = child_alone_verdict(spec)
+            except Exception as e:  # noqa: BLE001
+                v = ("segments:building-raises:" + type(e).__name__, "building parent / child raised %r" % e)
+            ctx.case({"child-alone": spec}, nontrivial=True, bucket="child-alone:" + backend)
+            if v:
+                ctx.counterexample(v[0], v[1], {"check": "child-alone", "spec": spec})
+
+
 def search_eval(d):
+    if d["check"] == "child-alone":
+        v = child_alone_verdict(d["spec"])
+        return [v] if v else []
     """Re-evaluate one search case; list of (signature, text) violations."""
     if d["check"] == "compose":
         v = compose_verdict(d["spec"], compose_patterns(d["spec"]))
